@@ -161,7 +161,9 @@ func runWorkload(w *stack.World, led *ledger.Ledger, sends []send, recvLoops int
 				err := w.Nodes[s.src].S.Tell(tctx, w.Nodes[s.dst].Local(), vec)
 				cf()
 				sendErrs[i] = err
-				if err != nil {
+				if p2p.IsErrMTUExceeded(err) {
+					// a payload refused for its size must never arrive; any other error (a deadline, a closing swarm)
+					// leaves open whether the message was already on its way
 					led.Refuse(e)
 				}
 				// the library must not have modified the sender's buffers
